@@ -1,14 +1,31 @@
-// C57 — length-prefixed protobuf codec (misc/prost-codec).
-//   decode: claimed length > max  => Err, and nothing is split off / allocated for it;
-//           frame incomplete      => Ok(None), buffer untouched;
-//           frame complete        => consumes exactly varint + len bytes.
-//   consume_message_prefix: same framing rule on a slice.
-// The message type is `()` (prost's empty message: unknown fields are skipped), so
-// prost's field decoder runs on the 0..2 body bytes; prost itself is assumed.
+// C57 — length-prefixed protobuf codec (misc/prost-codec).  Contract from the statement:
+//  (1) decodes, under ANY split of the byte stream, exactly the messages that were encoded;
+//  (2) rejects a declared length above its limit BEFORE buffering the payload
+//      (Err from the prefix alone, nothing consumed or split off);
+//  (3) never panics on arbitrary input.
+// Framing harnesses use `Opaque`, a message type whose decoder swallows the body
+// (prost's body decoding is assumed there); the round-trip harnesses run prost's real
+// derive code on the crate's own test message.
 
+/// a read buffer holding `bytes` with spare capacity (unique / KIND_VEC representation):
+/// used where every length is concrete (round trip, encode)
 fn buf_from(bytes: &[u8]) -> BytesMut {
-    let mut b = BytesMut::with_capacity(16);
+    let mut b = BytesMut::with_capacity(32);
     b.extend_from_slice(bytes);
+    b
+}
+
+/// the same in BytesMut's SHARED representation (what a buffer is after its first
+/// split_to anyway): used where `advance(n)`/`split_to(n)` see a SYMBOLIC n.  Measured
+/// reason: in the unique representation BytesMut keeps an integer offset inside a tagged
+/// pointer and a symbolic `advance` sends CBMC into both representations at every later
+/// operation; conversely a shared buffer that has to GROW reallocates through the
+/// shared path (366 s), so the concrete harnesses use buf_from.
+fn buf_shared(bytes: &[u8]) -> BytesMut {
+    let mut b = BytesMut::with_capacity(32);
+    b.extend_from_slice(bytes);
+    let t = b.split_off(b.len());
+    std::mem::forget(t);
     b
 }
 
@@ -16,89 +33,285 @@ fn no_format(_args: std::fmt::Arguments<'_>) -> String {
     String::new()
 }
 
-/// spec of the unsigned-varint prefix for values < 2^14 (1 or 2 bytes):
-/// returns (value, prefix length) or None when more bytes are needed
-fn spec_varint2(raw: &[u8], have: usize) -> Option<(usize, usize)> {
-    if have == 0 {
-        return None;
+/// message type with an opaque body: `decode` accepts and swallows any body.
+/// Measured reason: prost's generic `Message::decode` driver (decode_key on SYMBOLIC key
+/// bytes) does not terminate under CBMC even for a 1-byte body (150 s probe), so the framing
+/// contract treats body decoding as assumed; the round-trip harnesses below run prost's
+/// real code on bodies whose key/length bytes are concrete.
+#[derive(Debug, Default)]
+struct Opaque;
+
+impl Message for Opaque {
+    fn decode(mut buf: impl Buf) -> Result<Self, prost::DecodeError> {
+        let n = buf.remaining();
+        buf.advance(n);
+        Ok(Opaque)
     }
-    if raw[0] < 0x80 {
-        return Some((raw[0] as usize, 1));
+    fn encode_raw(&self, _buf: &mut impl bytes::BufMut) {}
+    fn merge_field(
+        &mut self,
+        _tag: u32,
+        _wire_type: WireType,
+        buf: &mut impl Buf,
+        _ctx: DecodeContext,
+    ) -> Result<(), prost::DecodeError> {
+        let n = buf.remaining();
+        buf.advance(n);
+        Ok(())
     }
-    if have < 2 {
-        return None;
+    fn encoded_len(&self) -> usize {
+        0
     }
-    Some((((raw[0] & 0x7f) as usize) | ((raw[1] as usize) << 7), 2))
+    fn clear(&mut self) {}
 }
 
-/// unsigned-varint rejects non-minimal encodings (a 2-byte prefix whose last byte is 0)
-fn overlong(raw: &[u8], have: usize) -> bool {
-    have >= 2 && raw[0] >= 0x80 && raw[1] == 0
+/// spec of the unsigned LEB128 prefix over the full usize range (<= 10 bytes):
+/// Some((value, prefix length)) for a minimal, non-overflowing prefix inside `raw[..have]`
+fn spec_varint(raw: &[u8; 10], have: usize) -> Option<(usize, usize)> {
+    let mut v: u64 = 0;
+    let mut i = 0;
+    while i < 10 && i < have {
+        let b = raw[i];
+        if i == 9 && b > 1 {
+            return None; // does not fit 64 bits
+        }
+        v |= ((b & 0x7f) as u64) << (7 * i);
+        if b < 0x80 {
+            if b == 0 && i > 0 {
+                return None; // non-minimal encoding
+            }
+            return Some((v as usize, i + 1));
+        }
+        i += 1;
+    }
+    None
 }
 
-/// decode() on every buffer of <= 4 bytes whose varint prefix is 1 or 2 bytes.
+/// (2)+(3) decode() on every 10-byte read buffer: prefix of any width and value, followed by
+/// whatever part of the payload has arrived; every max_message_len.
 #[kani::proof]
 #[kani::unwind(12)]
 #[kani::stub(alloc::fmt::format, no_format)]
-fn contract_decode_framing() {
-    let raw: [u8; 4] = kani::any();
-    let have: usize = kani::any();
-    kani::assume(have <= 4);
-    kani::assume(raw[1] < 0x80); // prefix is at most 2 bytes long
+fn contract_decode_prefix_full_width() {
+    let raw: [u8; 10] = kani::any();
     let max: usize = kani::any();
-    let mut codec = Codec::<(), ()>::new(max);
-    let mut src = buf_from(&raw[..have]);
+    let mut codec = Codec::<Opaque, Opaque>::new(max);
+    let mut src = buf_shared(&raw);
     let r = Decoder::decode(&mut codec, &mut src);
-    if overlong(&raw, have) {
-        assert!(r.is_err());
-        assert!(src.len() == have);
-        std::mem::forget(r);
-        return;
-    }
-    match spec_varint2(&raw, have) {
-        None => {
+    if let Some((len, vl)) = spec_varint(&raw, 10) {
+        kani::cover!(len > max && vl == 10);
+        kani::cover!(len <= max && vl == 1 && len == 9); // complete frame filling the buffer
+        kani::cover!(len <= max && vl == 3); // in-limit frame, payload incomplete
+        if len > max {
+            // oversized claim: refused from the prefix alone, nothing consumed / split off
+            assert!(r.is_err());
+            assert!(src.len() == 10);
+        } else if len > 10 - vl {
+            // payload not complete: wait, buffer untouched
             assert!(matches!(r, Ok(None)));
-            assert!(src.len() == have);
-        }
-        Some((len, vl)) => {
-            if len > max {
-                // oversized claim: refused before anything is consumed or split off
-                assert!(r.is_err());
-                assert!(src.len() == have);
-            } else if have < vl + len {
-                assert!(matches!(r, Ok(None)));
-                assert!(src.len() == have);
-            } else {
-                // complete frame: exactly varint + len consumed, whatever the body decodes to
-                assert!(src.len() == have - vl - len);
-                let mut j = 0;
-                while j < src.len() {
+            assert!(src.len() == 10);
+            let mut j = 0;
+            while j < 10 {
+                assert!(src[j] == raw[j]);
+                j += 1;
+            }
+        } else {
+            // complete frame: delivered; exactly prefix + payload consumed; the next
+            // frame's bytes are intact
+            assert!(matches!(r, Ok(Some(_))));
+            assert!(src.len() == 10 - vl - len);
+            let mut j = 0;
+            while j < 10 {
+                if j < src.len() {
                     assert!(src[j] == raw[vl + len + j]);
-                    j += 1;
                 }
+                j += 1;
             }
         }
     }
     std::mem::forget(r);
+    std::mem::forget(src);
 }
 
-/// consume_message_prefix on every slice of <= 4 bytes.
+/// (2) the prefix ALONE is buffered (no payload byte yet): an oversized claim is already an error
+#[kani::proof]
+#[kani::unwind(12)]
+#[kani::stub(alloc::fmt::format, no_format)]
+fn oversized_claim_rejected_from_prefix_alone() {
+    let raw: [u8; 3] = kani::any();
+    kani::assume(raw[0] >= 0x80 && raw[1] >= 0x80 && raw[2] < 0x80 && raw[2] != 0);
+    let len = (raw[0] & 0x7f) as usize | ((raw[1] & 0x7f) as usize) << 7 | (raw[2] as usize) << 14;
+    let max: usize = kani::any();
+    kani::assume(max < len);
+    let mut codec = Codec::<Opaque, Opaque>::new(max);
+    let mut src = buf_shared(&raw);
+    let r = Decoder::decode(&mut codec, &mut src);
+    assert!(r.is_err());
+    assert!(src.len() == 3);
+    std::mem::forget(r);
+    std::mem::forget(src);
+}
+
+fn msg(n: usize) -> proto::Message {
+    let mut data = Vec::with_capacity(4);
+    let mut i = 0;
+    while i < n {
+        data.push(kani::any());
+        i += 1;
+    }
+    proto::Message { data }
+}
+
+/// feed `src` to the decoder until it asks for more bytes; any error is a contract violation
+fn drain(codec: &mut Codec<proto::Message>, src: &mut BytesMut, out: &mut [Option<proto::Message>; 2], cnt: &mut usize) {
+    let mut guard = 0;
+    while guard < 3 {
+        match Decoder::decode(codec, src) {
+            Ok(Some(m)) => {
+                assert!(*cnt < 2);
+                out[*cnt] = Some(m);
+                *cnt += 1;
+            }
+            Ok(None) => return,
+            Err(e) => {
+                std::mem::forget(e);
+                assert!(false);
+            }
+        }
+        guard += 1;
+    }
+}
+
+/// (1) two encoded messages delivered as `wire[..k]` then `wire[k..]` decode to exactly those messages
+fn roundtrip_split(k: usize, wire: &[u8; 6], m1: &proto::Message, m2: &proto::Message) {
+    let mut codec = Codec::<proto::Message>::new(16);
+    let mut out: [Option<proto::Message>; 2] = [None, None];
+    let mut cnt = 0;
+    let mut src = buf_from(&wire[..k]);
+    drain(&mut codec, &mut src, &mut out, &mut cnt);
+    src.extend_from_slice(&wire[k..]);
+    drain(&mut codec, &mut src, &mut out, &mut cnt);
+    assert!(cnt == 2);
+    assert!(out[0].as_ref() == Some(m1));
+    assert!(out[1].as_ref() == Some(m2));
+    assert!(src.is_empty());
+    std::mem::forget(out);
+    std::mem::forget(src);
+}
+
+fn encode_two() -> ([u8; 6], proto::Message, proto::Message) {
+    let m1 = msg(2); // frame: 04 0a 02 d0 d1
+    let m2 = msg(0); // frame: 00
+    let mut codec = Codec::<proto::Message>::new(16);
+    let mut dst = BytesMut::with_capacity(32);
+    let r1 = Encoder::encode(&mut codec, m1.clone(), &mut dst);
+    let r2 = Encoder::encode(&mut codec, m2.clone(), &mut dst);
+    assert!(r1.is_ok() && r2.is_ok());
+    assert!(dst.len() == 6);
+    let mut wire = [0u8; 6];
+    let mut i = 0;
+    while i < 6 {
+        wire[i] = dst[i];
+        i += 1;
+    }
+    std::mem::forget(dst);
+    (wire, m1, m2)
+}
+
+/// (1) every buffer content that stops short of the first frame's end: wait, untouched
+#[kani::proof]
+#[kani::unwind(12)]
+#[kani::stub(alloc::fmt::format, no_format)]
+fn roundtrip_incomplete_prefixes_wait() {
+    let (wire, m1, m2) = encode_two();
+    let mut codec = Codec::<proto::Message>::new(16);
+    let mut k = 0;
+    while k < 5 {
+        let mut src = buf_from(&wire[..k]);
+        let r = Decoder::decode(&mut codec, &mut src);
+        assert!(matches!(r, Ok(None)));
+        assert!(src.len() == k);
+        std::mem::forget(r);
+        std::mem::forget(src);
+        k += 1;
+    }
+    std::mem::forget((m1, m2));
+}
+
+/// (1) split in the middle of the first frame
+#[kani::proof]
+#[kani::unwind(12)]
+#[kani::stub(alloc::fmt::format, no_format)]
+fn roundtrip_split_mid_frame() {
+    let (wire, m1, m2) = encode_two();
+    roundtrip_split(3, &wire, &m1, &m2);
+    std::mem::forget((m1, m2));
+}
+
+/// (1) split exactly at the frame boundary
+#[kani::proof]
+#[kani::unwind(12)]
+#[kani::stub(alloc::fmt::format, no_format)]
+fn roundtrip_split_at_frame_boundary() {
+    let (wire, m1, m2) = encode_two();
+    roundtrip_split(5, &wire, &m1, &m2);
+    std::mem::forget((m1, m2));
+}
+
+/// (1) everything coalesced into one chunk (k = 6: the second chunk is empty)
+#[kani::proof]
+#[kani::unwind(12)]
+#[kani::stub(alloc::fmt::format, no_format)]
+fn roundtrip_coalesced() {
+    let (wire, m1, m2) = encode_two();
+    roundtrip_split(6, &wire, &m1, &m2);
+    std::mem::forget((m1, m2));
+}
+
+/// encode appends varint(len) ++ body to what is already in the buffer
+#[kani::proof]
+#[kani::unwind(12)]
+fn encode_appends_prefix_and_body() {
+    let pre: u8 = kani::any();
+    let mut dst = buf_from(&[pre]);
+    let m = msg(2);
+    let body = m.encode_to_vec();
+    let mut codec = Codec::<proto::Message>::new(kani::any());
+    let r = Encoder::encode(&mut codec, m, &mut dst);
+    assert!(r.is_ok());
+    assert!(body.len() == 4 && dst.len() == 1 + 1 + 4);
+    assert!(dst[0] == pre && dst[1] == 4);
+    let mut i = 0;
+    while i < 4 {
+        assert!(dst[2 + i] == body[i]);
+        i += 1;
+    }
+    std::mem::forget((r, body, dst));
+}
+
+/// consume_message_prefix on every slice of <= 4 bytes (1- or 2-byte prefix).
 #[kani::proof]
 #[kani::unwind(12)]
 fn contract_consume_message_prefix() {
-    let raw: [u8; 4] = kani::any();
+    let raw4: [u8; 4] = kani::any();
     let have: usize = kani::any();
     kani::assume(have <= 4);
-    kani::assume(raw[1] < 0x80);
+    kani::assume(raw4[1] < 0x80);
+    let mut raw = [0u8; 10];
+    raw[0] = raw4[0];
+    raw[1] = raw4[1];
+    raw[2] = raw4[2];
+    raw[3] = raw4[3];
     let mut s: &[u8] = &raw[..have];
     let r = consume_message_prefix(&mut s);
-    if overlong(&raw, have) {
+    if have >= 2 && raw[0] >= 0x80 && raw[1] == 0 {
+        // non-minimal prefix: refused
         assert!(r.is_err());
         assert!(s.len() == have);
         std::mem::forget(r);
         return;
     }
-    match spec_varint2(&raw, have) {
+    match spec_varint(&raw, have) {
         None => {
             assert!(matches!(r, Ok(false)));
             assert!(s.len() == have);
@@ -117,19 +330,6 @@ fn contract_consume_message_prefix() {
     std::mem::forget(r);
 }
 
-/// encode(()) writes exactly varint(0) and nothing else; decode gives it back.
-#[kani::proof]
-#[kani::unwind(12)]
-fn lemma_encode_decode_empty_message() {
-    let pre: u8 = kani::any();
-    let mut dst = buf_from(&[pre]);
-    let mut codec = Codec::<(), ()>::new(kani::any());
-    let r = Encoder::encode(&mut codec, (), &mut dst);
-    assert!(r.is_ok());
-    assert!(dst.len() == 2 && dst[0] == pre && dst[1] == 0);
-    std::mem::forget(r);
-}
-
 /// Vacuity canary: must FAIL.
 #[kani::proof]
 #[kani::unwind(12)]
@@ -137,8 +337,8 @@ fn lemma_encode_decode_empty_message() {
 fn canary_decode_never_errs() {
     let raw: [u8; 2] = kani::any();
     kani::assume(raw[0] < 0x80);
-    let mut codec = Codec::<(), ()>::new(kani::any());
-    let mut src = buf_from(&raw);
+    let mut codec = Codec::<Opaque, Opaque>::new(kani::any());
+    let mut src = buf_shared(&raw);
     let r = Decoder::decode(&mut codec, &mut src);
     assert!(r.is_ok());
     std::mem::forget(r);
